@@ -20,7 +20,7 @@ META = {
                  'beads on a line with real coordinates; separation 0..3, decay power 0/1/2, domain = molecule/chain/residue '
                  'regions (symbolic region bounds), 3 insertion orders; lower/upper bound, decay factor, base constant, minimum '
                  'force real-valued; translation + reversed/permuted atom order; NaN coordinate',
-        'thorough': '<= 5 selected beads (separation >= 2), half of the layout x separation x power x domain x order combinations (all of them for the linear 4-bead chain)',
+        'thorough': 'the quick-tier rotation of layout x separation x power x domain x order combinations, plus every combination for the linear 4-bead chain (incl. the 64-path separation-0 cases with decay power 1-2) and 5 selected beads at separation >= 2',
     },
     'stubs': ['apply_rubber_band.LOGGER -> recorder of (level, type)',
               'numpy on proxies: sqrt exact (y>=0, y*y=t), exp = fresh positive variable per argument with strict monotonicity '
@@ -392,8 +392,8 @@ def cases(tier):
                                 continue        # 64 paths of heavier NRA queries (100-300 s each): thorough tier, lin4/asc only
                             if layout == 'lin5' and sep < 2:
                                 continue        # 5 selected beads with <= 1 separation: up to 1024 paths
-                            if tier == 'thorough' and (k + sep) % 2 != 0 and layout != 'lin4':
-                                continue
+                            if tier == 'thorough' and (k + sep + power) % 4 != 0 and layout != 'lin4':
+                                continue        # other layouts: the quick-tier rotation (the untrimmed tier ran past 28 min)
                             part = dict(layout=layout, selected=selected, sep=sep, power=power, domain=domain, order=order,
                                         sep_from_ff=(k % 5 == 0),
                                         old_resid=(domain == 'regions' and [False, True, 'zero'][k % 3]))
